@@ -498,12 +498,18 @@ func (radius *RADIUS) SerializeTo(b gopacket.SerializeBuffer, opts gopacket.Seri
 	copy(data[4:20], radius.Authenticator[:])
 
 	pos := radiusMinimumRecordSizeInBytes
-	for _, v := range radius.Attributes {
+	for i := range radius.Attributes {
+		v := &radius.Attributes[i]
 		if opts.FixLengths {
-			v.Length, err = attributeValueLength(v.Value)
+			n, err := attributeValueLength(v.Value)
 			if err != nil {
 				return err
 			}
+			if int(n)+2 > 255 {
+				return fmt.Errorf("RADIUS attribute value length %d too long", n)
+			}
+			// the length octet counts the type and length octets as well
+			v.Length = n + 2
 		}
 
 		data[pos] = byte(v.Type)
